@@ -19,10 +19,10 @@ check('C16', 'other',
       'Proved (unbounded): call-site obligations of inject_cb in all three loops with a ghost call log (exactly once per evaluated line, Line identity, writable view of the fresh row, downstream ops read what the callback wrote). Bounded: behavioural equivalence with an overridden line vs netlist oracle.',
       'requires of the loop contract; callback writes only through its view; netlist-level meaning bounded only',
       'contract-based deductive verification with ghost call log + bounded stand-in', 'DESIGN.md 5-C16')
-check('C17', 'exploration',
-      'Runtime contracts of the traversal generators and name lookups on a stated bounded circuit/naming space (exhaustive small family + seeded).',
-      'bounded only (generators over an object graph are outside the VC generator); oracle = spec-side graph search',
-      'bounded runtime-contract stand-in (no deductive part within reach)', 'DESIGN.md 5-C17')
+check('C17', 'other',
+      'Proved (unbounded, one function): Circuit.topological_line_order yields exactly the connected output lines of the nodes in the order topological_order() gives them, pin order within a node, never None (generator executed symbolically, yields as a ghost sequence). Bounded: runtime contracts of the worklist traversals (topological_order, reversed order, fan-in, levels) and name lookups on a stated circuit/naming space (exhaustive small family + seeded).',
+      'topological_order() enters the proved part as an arbitrary node sequence; the worklist generators themselves are bounded only; oracle = spec-side graph search',
+      'contract-based deductive verification (ast->z3 VCs, generator yields as ghost sequence) of one traversal + bounded runtime-contract stand-in for the worklist traversals', 'DESIGN.md 5-C17')
 check('C03', 'other',
       'Proved (unbounded, all LUTs / operand waveforms / capacities >= 4 / delays >= 0 / dataset modes): _wave_eval output is well formed, its final value (parity) and its initial value are the LUT of the operand final / initial values also on the overflow path, frame and lane clauses, termination; capture and assign kernels; WaveSim.s_to_c encoding; composition over op list x lanes x levels (level_eval_cpu, WaveSim.c_prop) under memory-map hypotheses. Bounded: the hypotheses, translation and the end-to-end result on real runs against the netlist oracle, incl. instance re-use.',
       'extended-real model of float32 time stamps, integers mathematical, sd = 0; memory-map hypotheses A1-A4w partly proved (C08) otherwise bounded; GPU path composed per thread only',
@@ -63,9 +63,10 @@ check('C11', 'other',
       'Proved (unbounded, one step): BenchTransformer.assignment adds exactly the described cell, its output fork and one input line per driver in order, keeping the circuit well-formed (constructors inlined on the object heap). Bounded round-trip contract with spec-side Verilog/bench printers: port order, function for all valuations (enumerated), branch forks only insert forks, bench == Verilog; over generated netlists of all five libraries and many renderings.',
       'the LALR grammars, the Verilog transformer and the pin tables are outside the VC generator; meaning of the parsed circuit judged by the spec evaluator',
       'contract-based deductive verification of the bench construction step + bounded runtime round-trip contract (ghost netlist), complete over valuations', 'DESIGN.md 5-C11')
-check('C14', 'exploration',
-      'Bounded round-trip contract with a spec-side SDF printer: every IOPATH / INTERCONNECT entry at its [dataset, line, input polarity, output polarity], everything else zero; three CELL grouping styles x both branchforks.',
-      'parser and numpy annotation outside the VC generator', 'bounded runtime round-trip contract (ghost entries)', 'DESIGN.md 5-C14')
+check('C14', 'other',
+      'Proved (two functions): the CELL grouping loop of SdfTransformer.start keeps every entry of every block under its instance name in file order, for any sequence of blocks (repeated / unnamed instances included); sdf.sanitize returns [name, name, rise, fall] with a single value list applied to both output polarities. Bounded round-trip contract with a spec-side SDF printer: every IOPATH / INTERCONNECT entry at its [dataset, line, input polarity, output polarity], everything else zero; three CELL grouping styles x both branchforks.',
+      'LALR parser, SdfTransformer.cell and the numpy annotation code (iopaths / interconnects) are outside the VC generator and bounded only',
+      'contract-based deductive verification (ast->z3 VCs) of CELL grouping (quantified loop invariant, ghost counts) and entry normalisation + bounded runtime round-trip contract (ghost entries) for placement and zeros', 'DESIGN.md 5-C14')
 check('C18', 'other',
       'Bounded round-trip contract with a spec-side STIL printer for tests(), responses(), tests_loc(); mv_transition under pyvc contract where discharged.',
       'bounded over circuits/chains/pattern sets', 'bounded runtime round-trip contract (+ pyvc for mv_transition)', 'DESIGN.md 5-C18')
